@@ -105,6 +105,8 @@ fn main() {
                     std::fs::copy(r, ops).ok();
                 }
                 phys::replay(ops, imp)
+            } else if let Some(dir) = arg(&args, "--huge") {
+                phys::huge(dir, ops, imp)
             } else {
                 let cfg = phys::PhysCfg {
                     setlen_heavy: args.iter().any(|a| a == "--setlen-heavy"),
